@@ -1,6 +1,6 @@
 """C20 - loosening RP policy never rejects; credential input form is irrelevant."""
 import zlib, json, copy
-from harness import fw, impl, authsim, authcat, authrun, regsim, regcat, regrun, allcat
+from harness import jsonmut, fw, impl, authsim, authcat, authrun, regsim, regcat, regrun, allcat
 
 TRUSTED = [
     "Coq 8.16.1 kernel; C20_mono_* (all inputs, valid or not, no oracle hypothesis) and C20_forms_* are theorems over the model",
@@ -106,6 +106,8 @@ def run(tier, seed):
             kw_s = pol.kwargs()
             kw_s["expected_challenge"] = memoryview(bytes(b for x in kw_s["expected_challenge"] for b in (x, 0xAA)))[::2]
             outs["challenge-strided-memoryview"] = impl.outcome(lambda: webauthn.verify_authentication_response(credential=rec(bytes), **kw_s), impl.pr_verified_auth)
+        for nm, tx in jsonmut.text_spellings(d0)[:: (3 if quick else 1)]:
+            outs["text: " + nm] = va(pol, tx)
         if label.startswith("baseline"):
             # the text form has no size limit: padding and a large ignored member change nothing
             for n in fw.size_ladder():
@@ -157,6 +159,8 @@ def run(tier, seed):
             kw_s["expected_challenge"] = memoryview(bytes(b for x in kw_s["expected_challenge"] for b in (x, 0xAA)))[::2]
             with impl.substituted(pol.substitute, pol.now):
                 outs["challenge-strided-memoryview"] = impl.outcome(lambda: webauthn.verify_registration_response(credential=rec(bytes), **kw_s), impl.pr_verified_reg)
+        for nm, tx in jsonmut.text_spellings(d0)[:: (3 if quick else 1)]:
+            outs["text: " + nm] = vr(pol, tx)
         if label.startswith("baseline/none") or label.startswith("baseline/packed"):
             for n in fw.size_ladder():
                 outs[f"text-padded-to-{n}"] = vr(pol, json.dumps(d0) + " " * n)
